@@ -54,6 +54,10 @@ def seq_continuation(ctx, prog, rid):
     rec = ctx.body(rid, 'HnswBackend::recover_with_hnsw_params_and_mode')
     if rec is None:
         return
+    # roles, found structurally (a rename of these locals in /repo changes nothing here)
+    util.bind_role(rec, 'max_wal_seq', type_rx=r'^u64$', used_as=(r'num::(saturating|wrapping|checked)_add$', 0), origin_rx=r'WalEntry\.seq_no', full=True)
+    util.bind_role(rec, 'snapshot_last_wal_seq', type_rx=r'^u64$', origin_rx=r'^phi\(0 \| Snapshot::load_with_validation\(.*→Snapshot\.last_wal_seq\)$', full=True)
+    util.bind_role(rec, 'entry', type_rx=r'persistence::WalEntry$', origin_rx=r'Iterator>::next\(')
     ov = flow.Origin(rec, stop_at_vars=True)
     of = flow.Origin(rec)
     # ------------------------------------------------------------------ R1 sequence continuation
@@ -86,7 +90,16 @@ def seq_continuation(ctx, prog, rid):
                      'snapshot_last_wal_seq = %s' % (slo[:60] + ' … ' + slo[-60:]))
             raise_sw = edges_matching(rec, ov, r'^cmp\[\+ var:entry→WalEntry\.seq_no - var:max_wal_seq >= 1\]$')
             skip_sw = edges_matching(rec, ov, SEQ_COVERED)
-            if not raise_sw or not skip_sw:
+            # the other idiom: max_wal_seq = max_wal_seq.max(entry.seq_no) — an unconditional assignment that must come before the skip decision
+            max_asg = [d for d in rec.defs.get(ml[0], []) if d[2] in ('call', 'pcall') and d[3].callee and re.search(r'Ord::max$|cmp::max$', flow.short(d[3].callee)) and
+                       sorted(flow.render(ov.of_operand(a)) for a in d[3].args) == ['var:entry→WalEntry.seq_no', 'var:max_wal_seq']]
+            max_asg += [d for d in rec.defs.get(ml[0], []) if d[2] == 'assign' and re.match(
+                r'^(Ord::max|cmp::max)\((var:max_wal_seq, var:entry→WalEntry\.seq_no|var:entry→WalEntry\.seq_no, var:max_wal_seq)\)$', flow.render(ov.of_rvalue(d[3]['rv'], 0, frozenset({-1}))))]
+            if max_asg and skip_sw and not raise_sw:
+                ok = all(rec.dominates(max_asg[0][0], s_[0]) for s_ in skip_sw)
+                ctx.inst(rid, rec.short, 'maximum raised before the skip decision', ok,
+                         'max_wal_seq = max(max_wal_seq, entry.seq_no) at %s dominates skip guard(s) at %s: %s' % (rec.loc_of(max_asg[0][0]), [rec.loc_of(s_[0]) for s_ in skip_sw], ok))
+            elif not raise_sw or not skip_sw:
                 ctx.missing(rid, 'recovery: guard entry.seq_no > max_wal_seq and the replay-skip guard')
             else:
                 rs = raise_sw[0][0]
